@@ -709,6 +709,8 @@ class Inliner:
         # f(helper(..)), if helper(..) > 0: ...): hoist it into `_rN = helper(..)` in front
         hoisted = self._hoist(fctx, st, stack, caller_names)
         if hoisted is not None:
+            if hoisted and hoisted[-1] is st:
+                self._subst_exprs(fctx, st, ost, stack)  # expression helpers in what is left of the statement
             return hoisted
         # expression substitution anywhere inside this statement's own expressions
         self._subst_exprs(fctx, st, ost, stack)
@@ -884,6 +886,42 @@ class Inliner:
         if isinstance(st, ast.Expr) and isinstance(st.value, ast.Yield) and isinstance(st.value.value, ast.Tuple):
             # `yield a, helper(b)`: the helper call is a direct element and everything before it is a plain name / constant
             yield_tuple = st.value.value
+        # `return {.., "k": helper(..)}` / `x = {.., "k": helper(..)}`: the helper call is a direct value of the
+        # display and the values before it are plain reads or .to_dict() / .copy() of attribute chains
+        if isinstance(st, (ast.Return, ast.Assign, ast.AnnAssign)) and isinstance(getattr(st, "value", None), ast.Dict):
+            def _plain(e) -> bool:
+                for c in ast.walk(e):
+                    if isinstance(c, ast.Call) and not (isinstance(c.func, ast.Attribute) and c.func.attr in ("to_dict", "copy") and _is_simple(c.func.value) and not c.args and not c.keywords):
+                        s0 = getattr(c, "_src", None)
+                        g0 = self._callee(fctx, s0, stack) if s0 is not None and getattr(s0, "_parent", None) is not None else None
+                        if g0 is not None and self._is_expr_function(g0, plain=True) and all(_is_simple(a_) for a_ in c.args) and not c.keywords and all(_plain(r_.value) for r_ in ast.walk(g0.node) if isinstance(r_, ast.Return) and r_.value is not None):
+                            continue  # an expression helper whose own expression is plain
+                        return False
+                    if isinstance(c, (ast.Lambda, ast.Await, ast.Yield, ast.YieldFrom, ast.NamedExpr)):
+                        return False
+                return True
+
+            d = st.value
+            for i_, e_ in enumerate(d.values):
+                if isinstance(e_, ast.Call):
+                    src_ = getattr(e_, "_src", None)
+                    if src_ is not None and getattr(src_, "_parent", None) is not None:
+                        g_ = self._callee(fctx, src_, stack)
+                        if g_ is not None and not self._is_expr_function(g_, plain=True) and all(_plain(x) for x in d.values[:i_]) and all(k is None or isinstance(k, ast.Constant) for k in d.keys[: i_ + 1]):
+                            self.counter += 1
+                            tmp = f"_r{self.counter}"
+                            asg = ast.copy_location(ast.Assign(targets=[ast.Name(id=tmp, ctx=ast.Store())], value=e_), st)
+                            oasg = ast.copy_location(ast.Assign(targets=[ast.Name(id=tmp, ctx=ast.Store())], value=src_), st)
+                            before = len(self.inlined)
+                            pre = self._stmt(fctx, asg, oasg, stack, caller_names)
+                            if len(self.inlined) == before:
+                                return None
+                            d.values[i_] = ast.copy_location(ast.Name(id=tmp, ctx=ast.Load()), e_)
+                            rest = self._hoist(fctx, st, stack, caller_names)
+                            return pre + (rest if rest is not None else [st])
+                if not _plain(e_):
+                    break
+            return None
         if not isinstance(st, (ast.AugAssign, ast.If)) and yield_tuple is None:
             return None
         roots = []
